@@ -243,13 +243,21 @@ def run(ctx: Any, prog: Program) -> None:
             ctx.check('C19.H2', True, fs, wf, 'the empty folder stays empty under this normaliser', func=f'{cls}.walk_folder', text=f'{cls}.walk_folder empty folder')
         # H3: the File yielded carries the stored name or the key
         ys = [n for n in walk_no_nested(wf) if isinstance(n, ast.Yield) and isinstance(n.value, ast.Call) and dotted(n.value.func) == 'File']
-        if len(ys) != 1:
-            raise AnalysisError(f'{cls}.walk_folder: expected one `yield File(...)`')
-        parg = ys[0].value.args[1]
-        psrc = U(parg)
+        if not ys:
+            raise AnalysisError(f'{cls}.walk_folder: expected a `yield File(...)`')
         loop_vars = {x.id for l in walk_no_nested(wf) if isinstance(l, ast.For) and f'self.{index}' in U(l.iter) for x in ast.walk(l.target) if isinstance(x, ast.Name)}
-        ok = (isinstance(parg, ast.Name) and parg.id in loop_vars) or (isinstance(parg, ast.Attribute) and parg.attr == 'filename' and isinstance(parg.value, ast.Name) and parg.value.id in loop_vars)
-        ctx.check('C19.H3', ok, fs, ys[0], f'{cls}.walk_folder yields File(path={psrc}); it must be the stored file name (which the lookup normalises) or its key', func=f'{cls}.walk_folder', text=f'{cls}.walk_folder yields stored name')
+        for y_ in ys:
+            parg = y_.value.args[1]
+            psrc = U(parg)
+            ok = (isinstance(parg, ast.Name) and parg.id in loop_vars) or (isinstance(parg, ast.Attribute) and parg.attr == 'filename' and isinstance(parg.value, ast.Name) and parg.value.id in loop_vars)
+            # every listing walks the INDEX the lookups use: a second source of names (the archive's own entry list) lists entries the index
+            # has merged - two names differing in letter case are one file for `fs[name]` but two for the walk
+            lp_ = next((a for a in _anc19(fs, y_, wf) if isinstance(a, ast.For)), None)
+            if lp_ is not None and f'self.{index}' not in U(lp_.iter):
+                ctx.check('C19.H3', False, fs, y_, f'{cls}.walk_folder also lists files from `{U(lp_.iter)[:50]}` instead of the index self.{index}: names the index folds into one entry (differing only in letter case) '
+                          'are listed separately, and the extra name looks up to the other entry\'s content', func=f'{cls}.walk_folder', text=f'{cls}.walk_folder yields stored name')
+                continue
+            ctx.check('C19.H3', ok, fs, y_, f'{cls}.walk_folder yields File(path={psrc}); it must be the stored file name (which the lookup normalises) or its key', func=f'{cls}.walk_folder', text=f'{cls}.walk_folder yields stored name')
     # ---- H5: the directory backend's two existence tests agree (and mean "is a file": the other backends only index files) ---------------
     ctx.rule('C19.H5', 'RawFileSystem._file_exists and _get_file use the same "is a file" test on the resolved path', floor=2)
     rawm = fs.methods('RawFileSystem')
@@ -565,6 +573,7 @@ def run(ctx: Any, prog: Program) -> None:
 
 
 MUTANTS = [
+    {'id': 'zip_walk_of_everything_from_infolist', 'file': 'filesys.py', 'find': "        if folder and not folder.endswith('/'):\n            # Only match whole folder names.\n            folder += '/'\n        for filename, fileinfo in self._name_to_info.items():", 'replace': "        if not folder:\n            for fileinfo in self.zip.infolist():\n                if not fileinfo.is_dir():\n                    yield File(self, fileinfo.filename, fileinfo)\n            return\n        if folder and not folder.endswith('/'):\n            # Only match whole folder names.\n            folder += '/'\n        for filename, fileinfo in self._name_to_info.items():", 'expect': 'C19.H3'},
     {'id': 'chain_walk_unprefixed_member_names_untouched', 'file': 'filesys.py', 'find': "            full_folder = os.path.join(prefix, folder).replace('\\\\', '/')\n            # The prefix to strip again.", 'replace': "            full_folder = os.path.join(prefix, folder).replace('\\\\', '/')\n            if not prefix:\n                for file in sys.walk_folder(full_folder):\n                    yield File(self, file.path.replace('\\\\', '/'), file)\n                continue\n            # The prefix to strip again.", 'expect': 'C19.H4'},
     {'id': 'raw_walk_by_glob', 'file': 'filesys.py', 'find': "        for dirpath, dirnames, filenames in os.walk(path):\n            for file in filenames:\n                rel_path = os.path.relpath(\n                    os.path.join(dirpath, file),\n                    self.path,\n                ).replace('\\\\', '/')\n                yield File(self, rel_path, rel_path)", 'replace': "        import glob\n        for name in glob.iglob('**', root_dir=path, recursive=True):\n            if os.path.isfile(os.path.join(path, name)):\n                rel_path = os.path.relpath(os.path.join(path, name), self.path).replace('\\\\', '/')\n                yield File(self, rel_path, rel_path)", 'expect': 'C19.H2'},
     {'id': 'chain_walk_last_member_wins', 'file': 'filesys.py', 'find': "        done: set[str] = set()\n        for file in self.walk_folder_repeat(folder):\n            folded = file.path.casefold()\n            if folded in done:\n                continue\n            done.add(folded)\n            yield file\n", 'replace': "        found = {}\n        for file in self.walk_folder_repeat(folder):\n            found[file.path.casefold()] = file\n        yield from found.values()\n", 'expect': 'C19.H4'},
